@@ -6,6 +6,7 @@ import Proofs.C02.Witness
 import Proofs.C02.Bits
 import Proofs.C02.SignMsg
 import Proofs.E2E.C02
+import Proofs.C02.EndToEnd
 /-!
 # C02 — ECDSA: signatures verify, verification is the SEC 1 equation, recovery, DER is canonical
 
@@ -13,7 +14,8 @@ Property theorems only (DESIGN §3 C02).  The scheme is `Btc.Ecdsa.*` (Model/C02
 definitions the driver executes with `Btc.EC.ops c` against btclib; here they are reasoned about for
 every `o : GroupOps α` that is `Lawful` (the operations are those of a group of prime exponent `n` with
 an x-coordinate map).  For `Btc.EC.ops C` the bundle is PROVED by C01 (`lawful_ec`) on the `n`-torsion carrier: see the
-"End to end" section below, which also says what is left assumed there (cofactor one, for arbitrary keys).
+"End to end" section below, which also says what is left assumed there (cofactor one for arbitrary keys on a GENERIC
+curve; on secp256k1 cofactor one is proved and nothing is assumed).
 `mod_inv` is the executable extended Euclid `Btc.EC.modInv`, proved to invert (Proofs/C02/Basic.lean).
 -/
 namespace Props.C02
@@ -85,9 +87,10 @@ theorem ecdsa_crack (L : Lawful o G) {c1 c2 q k r1 s1 id1 r2 s2 id2 : ℤ}
 /-- T2' (the public boolean): `dsa.verify_` validates the `Sig` first — ranges and "r is congruent to an
     x-coordinate below p" (`Sig.assert_valid`, x-coordinate test `isX`) — and turns every refusal into
     `False`.  CONDITIONAL on `hX`: IF the x-coordinate test `isX` accepts the x-coordinate of every non-identity
-    element, that screen never changes the verdict.  `hX` is discharged for the executed test `Btc.Ecdsa.isXCoord C`
-    (Euler's criterion, btclib's Python arm) in `ecdsa_verify_api_is_sec1_ec` below; libsecp256k1's own test is
-    compared (both-backend streams), not proved. -/
+    element, that screen never changes the verdict.  `hX` is discharged for the model's test `Btc.Ecdsa.isXCoord C`
+    (Euler's criterion; btclib's Python arm computes the same Legendre symbol with a Jacobi loop — the two are
+    stream-compared, not proved equal) in `ecdsa_verify_api_is_sec1_ec` below; libsecp256k1's own test is compared
+    (both-backend streams), not proved. -/
 theorem ecdsa_verify_api_is_sec1 (L : Lawful o G) (isX : ℤ → Bool)
     (hX : ∀ P, L.abs P ≠ 0 → isX (o.x P) = true) (c : ℤ) (Q : α) (r s : ℤ) :
     verifyFull o isX c Q r s = true ↔ SEC1 L c Q r s := by
@@ -266,9 +269,11 @@ running the 256-step double-and-add; primality of `p` and of `n` by Pratt certif
 `secp256k1_n_prime`), so the secp256k1 theorems carry no hypothesis about `CurveOk`.
 WHAT IS LEFT ASSUMED: the carrier of `lawful_ec` is the `n`-torsion (`SubPt`: reduced valid pairs `P` with `n•P = 0`).
 T1 / T3 speak about keys `mult q G`, which are in it.  For an ARBITRARY key a caller hands in, membership needs
-cofactor one (`hcof : ∀ g, n • g = 0`: the curve has exactly `n` points) — not proved for secp256k1 (no point count);
-the `…_cofactor_one` theorems below take it as their one named hypothesis and are stated over the raw `EC.ops C` and
-keys as `point_from_pub_key` accepts them.  `h34` (`p ≡ 3 mod 4`) is carried by the RECOVERY theorems only (`lift_x`);
+cofactor one (`hcof : ∀ g, n • g = 0`: the curve has exactly `n` points).  On a GENERIC curve it is the one named
+hypothesis of `ecdsa_verify_api_is_sec1_ec_cofactor_one` (false with a cofactor; dischargeable by
+`Btc.E2E.cofactor_one_of_count` when `2p+1 < 3n` and there is no 2-torsion); on secp256k1 it is PROVED
+(`Btc.E2E.secpCofactorOne`) and `ecdsa_verify_api_is_sec1_secp256k1` assumes nothing.  Both are stated over the raw
+`EC.ops C` and keys as `point_from_pub_key` accepts them.  `h34` (`p ≡ 3 mod 4`) is carried by the RECOVERY theorems only (`lift_x`);
 sign / verify (T1, T2, T2') go through `lawfulGroup_ec` and hold on every odd prime field. -/
 namespace Props.C02
 open Btc Btc.EC Btc.C01 Btc.E2E Btc.Ecdsa
@@ -332,19 +337,98 @@ theorem ecdsa_verify_api_is_sec1_ec_cofactor_one {p : ℕ} [Fact p.Prime] {C : C
       Grp.SEC1 (lawfulGroup_ec K) c ⟨Q, inSubOf hcof (valid_of_pubKeyOk K hk).1 (valid_of_pubKeyOk K hk).2.1⟩ r s) :=
   Btc.E2E.ecdsa_verify_api_is_sec1_key K hcof c Q hk r s
 
-/-- the same on secp256k1; `SecpCofactorOne` (the curve has exactly `n` points) is the one assumption -/
-theorem ecdsa_verify_api_is_sec1_secp256k1_cofactor_one (hcof : SecpCofactorOne) (c : ℤ)
+/-- the same on secp256k1 with NOTHING assumed: cofactor one is proved there (`Btc.E2E.secpCofactorOne`,
+    Proofs/E2E/CofactorOne.lean: `N ≤ 2p+1 < 3n`, `n ∣ N`, no 2-torsion), so for ANY key the API accepts the public
+    boolean is `verify` and `verify` is the SEC 1 relation for the point the pair denotes.  (Supersedes the former
+    `ecdsa_verify_api_is_sec1_secp256k1_cofactor_one`.) -/
+theorem ecdsa_verify_api_is_sec1_secp256k1 (c : ℤ)
     (Q : Point) (hk : pubKeyOk secp256k1 Q = true) (r s : ℤ) :
     (verifyFull (EC.ops secp256k1) (isXCoord secp256k1) c Q r s = true ↔
       verify (EC.ops secp256k1) c Q r s = true) ∧
     (verify (EC.ops secp256k1) c Q r s = true ↔
-      Grp.SEC1 secpLawfulG c ⟨Q, @inSubOf secp256k1_p ⟨secp256k1_p_prime⟩ secp256k1 hcof _
+      Grp.SEC1 secpLawfulG c ⟨Q, @inSubOf secp256k1_p ⟨secp256k1_p_prime⟩ secp256k1 secpCofactorOne _
         (@valid_of_pubKeyOk secp256k1_p ⟨secp256k1_p_prime⟩ secp256k1 secpOk Q hk).1
         (@valid_of_pubKeyOk secp256k1_p ⟨secp256k1_p_prime⟩ secp256k1 secpOk Q hk).2.1⟩ r s) :=
-  Btc.E2E.ecdsa_verify_api_is_sec1_secp256k1 hcof c Q hk r s
+  Btc.E2E.ecdsa_verify_api_is_sec1_secp256k1_any_key c Q hk r s
 
--- on the toy curve (31 points = n: cofactor one holds by counting is not attempted; the hypothesis is satisfiable
--- there) a key the API accepts: `pubKeyOk` computes
+/-- T2′ with no cofactor hypothesis, any `CurveOk` curve, keys of the `n`-torsion carrier (every key built from `G`):
+    the public boolean with the executed x-coordinate screen is the SEC 1 relation -/
+theorem ecdsa_verify_api_is_sec1_ec {p : ℕ} [Fact p.Prime] {C : Curve} (K : CurveOk p C)
+    (c : ℤ) (Q : SubPt p C) (r s : ℤ) :
+    verifyFull (EC.ops C) (isXCoord C) c Q.1 r s = true ↔ Grp.SEC1 (lawfulGroup_ec K) c Q r s :=
+  Btc.E2E.ecdsa_verify_api_is_sec1_ec K c Q r s
+
+/-- T6 on btclib's arithmetic, any odd prime field -/
+theorem ecdsa_crack_ec {p : ℕ} [Fact p.Prime] {C : Curve} (K : CurveOk p C) {c1 c2 q k r1 s1 id1 r2 s2 id2 : ℤ}
+    (hk : 0 < k ∧ k < C.n) (hq : 0 < q ∧ q < C.n)
+    (h1 : signRecoverable (EC.ops C) c1 q k false = .ok (r1, s1, id1))
+    (h2 : signRecoverable (EC.ops C) c2 q k false = .ok (r2, s2, id2)) (hne : s1 ≠ s2) :
+    crack (EC.ops C) c1 r1 s1 c2 r2 s2 = .ok (q, k) :=
+  Btc.E2E.ecdsa_crack_ec K hk hq h1 h2 hne
+
+/-- T6 on secp256k1 -/
+theorem ecdsa_crack_secp256k1 {c1 c2 q k r1 s1 id1 r2 s2 id2 : ℤ}
+    (hk : 0 < k ∧ k < secp256k1.n) (hq : 0 < q ∧ q < secp256k1.n)
+    (h1 : signRecoverable (EC.ops secp256k1) c1 q k false = .ok (r1, s1, id1))
+    (h2 : signRecoverable (EC.ops secp256k1) c2 q k false = .ok (r2, s2, id2)) (hne : s1 ≠ s2) :
+    crack (EC.ops secp256k1) c1 r1 s1 c2 r2 s2 = .ok (q, k) :=
+  Btc.E2E.ecdsa_crack_secp256k1 hk hq h1 h2 hne
+
+/-- T4c on btclib's arithmetic (`sign_`, Python arm, any HMAC, explicit / RFC 6979 nonce, grinding), any odd prime field -/
+theorem ecdsa_sign_msg_verifies_ec {p : ℕ} [Fact p.Prime] {C : Curve} (K : CurveOk p C) (H : Rfc6979.HashSpec)
+    (m : Bytes) (q : ℤ) (k? : Option ℤ) (lowerS grind : Bool) (fuel : ℕ) (σ : ℤ × ℤ)
+    (h : Rfc6979.signMsg (EC.ops C) H m q k? lowerS grind fuel = .ok σ) :
+    verify (EC.ops C) (Rfc6979.challenge C.n m) ((EC.ops C).mul q C.G) σ.1 σ.2 = true ∧
+      (lowerS = true → σ.2 ≤ C.n / 2) ∧
+      (k? = none → grind = true → Gen.Ecdsa.is_low_r σ.1 (Rfc6979.nsizeOf C.n) = true) :=
+  Btc.E2E.ecdsa_sign_msg_verifies_ec K H m q k? lowerS grind fuel σ h
+
+/-- T4c on secp256k1 -/
+theorem ecdsa_sign_msg_verifies_secp256k1 (H : Rfc6979.HashSpec) (m : Bytes) (q : ℤ) (k? : Option ℤ)
+    (lowerS grind : Bool) (fuel : ℕ) (σ : ℤ × ℤ)
+    (h : Rfc6979.signMsg (EC.ops secp256k1) H m q k? lowerS grind fuel = .ok σ) :
+    verify (EC.ops secp256k1) (Rfc6979.challenge secp256k1.n m) ((EC.ops secp256k1).mul q secp256k1.G)
+        σ.1 σ.2 = true ∧
+      (lowerS = true → σ.2 ≤ secp256k1.n / 2) ∧
+      (k? = none → grind = true → Gen.Ecdsa.is_low_r σ.1 (Rfc6979.nsizeOf secp256k1.n) = true) :=
+  Btc.E2E.ecdsa_sign_msg_verifies_secp256k1 H m q k? lowerS grind fuel σ h
+
+/-- T4d on btclib's arithmetic (`sign_recoverable_`): verifies, and the key_id recovers a pair `==` to `mult q G` -/
+theorem ecdsa_sign_recoverable_msg_recovers_ec {p : ℕ} [Fact p.Prime] {C : Curve} (K : CurveOk p C)
+    (h34 : p % 4 = 3) (H : Rfc6979.HashSpec) (m : Bytes) (q : ℤ) (k? : Option ℤ) (lowerS : Bool) (fuel : ℕ)
+    (r s kid : ℤ) (h : Rfc6979.signRecMsg (EC.ops C) H m q k? lowerS fuel = .ok (r, s, kid)) (primeOrder : Bool) :
+    verify (EC.ops C) (Rfc6979.challenge C.n m) ((EC.ops C).mul q C.G) r s = true ∧
+      (lowerS = true → s ≤ C.n / 2) ∧
+      ∃ Q', recover (EC.ops C) primeOrder kid (Rfc6979.challenge C.n m) r s false = .ok Q' ∧
+        (EC.ops C).eq Q' ((EC.ops C).mul q C.G) = true :=
+  Btc.E2E.ecdsa_sign_recoverable_msg_recovers_ec K h34 H m q k? lowerS fuel r s kid h primeOrder
+
+/-- T4d on secp256k1 -/
+theorem ecdsa_sign_recoverable_msg_recovers_secp256k1 (H : Rfc6979.HashSpec)
+    (m : Bytes) (q : ℤ) (k? : Option ℤ) (lowerS : Bool) (fuel : ℕ) (r s kid : ℤ)
+    (h : Rfc6979.signRecMsg (EC.ops secp256k1) H m q k? lowerS fuel = .ok (r, s, kid)) (primeOrder : Bool) :
+    verify (EC.ops secp256k1) (Rfc6979.challenge secp256k1.n m) ((EC.ops secp256k1).mul q secp256k1.G) r s
+        = true ∧
+      (lowerS = true → s ≤ secp256k1.n / 2) ∧
+      ∃ Q', recover (EC.ops secp256k1) primeOrder kid (Rfc6979.challenge secp256k1.n m) r s false = .ok Q' ∧
+        (EC.ops secp256k1).eq Q' ((EC.ops secp256k1).mul q secp256k1.G) = true :=
+  Btc.E2E.ecdsa_sign_recoverable_msg_recovers_secp256k1 H m q k? lowerS fuel r s kid h primeOrder
+
+/-- recover THEN verify on btclib's arithmetic: a pair `_recover_pub_key_` answers for ANY `(key_id, c, r, s)` with
+    `r, s ∈ 1..n-1` (run over the lawful carrier; the run over `Btc.EC.ops C` answers the same pair) is a key under
+    which the verifier over `Btc.EC.ops C` accepts `(r, s)`.  Recovery needs `p ≡ 3 (mod 4)`. -/
+theorem ecdsa_recover_then_verify_ec {p : ℕ} [Fact p.Prime] {C : Curve} (K : CurveOk p C) (h34 : p % 4 = 3)
+    {primeOrder lowerS : Bool} {kid c r s : ℤ} {Q : SubPt p C} (hr : 0 < r ∧ r < C.n) (hs : 0 < s ∧ s < C.n)
+    (h : recover (opsSub K) primeOrder kid c r s lowerS = .ok Q) :
+    recover (EC.ops C) primeOrder kid c r s lowerS = .ok Q.1 ∧ verify (EC.ops C) c Q.1 r s = true :=
+  Btc.E2E.ecdsa_recover_then_verify_ec K h34 hr hs h
+
+-- a key the API accepts (`pubKeyOk` computes), on the toy curve (31 points = n; cofactor one proved there too:
+-- `Btc.E2E.Toy.toy_hcof`) and on secp256k1, where the hypothesis-free theorem then applies to it
+example : pubKeyOk secp256k1 secp256k1.G = true := by decide +kernel
+example (c r s : ℤ) : verifyFull (EC.ops secp256k1) (isXCoord secp256k1) c secp256k1.G r s = true ↔
+    verify (EC.ops secp256k1) c secp256k1.G r s = true :=
+  (ecdsa_verify_api_is_sec1_secp256k1 c secp256k1.G (by decide +kernel) r s).1
 example : pubKeyOk toyC ((EC.ops toyC).mul 5 toyC.G) = true := by decide +kernel
 -- … and a key written with a non-reduced x is refused, as `is_on_curve` refuses it (/repo d8821600)
 example : pubKeyOk toyC (((EC.ops toyC).mul 5 toyC.G).1 + 43, ((EC.ops toyC).mul 5 toyC.G).2) = false := by
@@ -358,6 +442,14 @@ example : verify (EC.ops toyC) 3 ((EC.ops toyC).mul 5 toyC.G) 7 12 = true :=
 example : ∃ Q', recover (EC.ops toyC) true 0 3 7 12 true = .ok Q' ∧
     (EC.ops toyC).eq Q' ((EC.ops toyC).mul 5 toyC.G) = true :=
   ecdsa_recover_signer_ec toyOk (by decide) (by decide) (by decide) toy_ecdsa_sign true true (fun h => h)
+-- T6 / T4c hypotheses met by concrete runs over btclib's arithmetic on the proved toy curve: two signatures sharing
+-- nonce 2 crack to (5, 2); `sign_` with a toy HMAC and an explicit nonce answers, and the theorem's verdict follows
+example : crack (EC.ops toyC) 3 7 12 4 7 28 = .ok (5, 2) :=
+  ecdsa_crack_ec toyOk (k := 2) (q := 5) (id1 := 0) (id2 := 0) (by decide) (by decide)
+    (by decide +kernel) (by decide +kernel) (by decide)
+example : verify (EC.ops toyC) (Rfc6979.challenge toyC.n [0x1f]) ((EC.ops toyC).mul 5 toyC.G) 7 12 = true :=
+  (ecdsa_sign_msg_verifies_ec toyOk ⟨fun _ _ => [0], 1⟩ [0x1f] 5 (some 2) true false 1 (7, 12)
+    (by decide +kernel)).1
 -- the signing hypothesis is satisfiable on secp256k1 as well (challenge 3, key 5, nonce 2)
 example : (match signRecoverable (EC.ops secp256k1) 3 5 2 true with | .ok _ => true | .error _ => false) = true := by
   decide +kernel
